@@ -188,7 +188,42 @@ fn main() {
     let nseeds = run.size(24, 1_200);
     let workers = Run::threads().min(nseeds as usize).max(1) as u64;
     let exe = std::env::current_exe().unwrap();
+    // termination watchdog, decided on CPU time (not wall clock): a case whose child has burnt more
+    // than CASE_CPU_LIMIT_S seconds of CPU since the case was announced is killed and reported as
+    // non-terminating (the slowest cases take well under a second)
+    const CASE_CPU_LIMIT_S: u64 = 120;
+    let pids: Vec<std::sync::atomic::AtomicU64> = (0..workers).map(|_| std::sync::atomic::AtomicU64::new(0)).collect();
+    let seqs: Vec<std::sync::atomic::AtomicU64> = (0..workers).map(|_| std::sync::atomic::AtomicU64::new(0)).collect();
+    let killed: Vec<std::sync::atomic::AtomicU64> = (0..workers).map(|_| std::sync::atomic::AtomicU64::new(0)).collect();
+    let done = std::sync::atomic::AtomicU64::new(0);
+    let cpu_ticks = |pid: u64| -> Option<u64> {
+        let s = std::fs::read_to_string(format!("/proc/{pid}/stat")).ok()?;
+        let rest = s.rsplit_once(')')?.1;
+        let f: Vec<&str> = rest.split_whitespace().collect();
+        Some(f.get(11)?.parse::<u64>().ok()? + f.get(12)?.parse::<u64>().ok()?)
+    };
     std::thread::scope(|sc| {
+        let (pids, seqs, killed, done) = (&pids, &seqs, &killed, &done);
+        sc.spawn(move || {
+            let mut last: Vec<(u64, u64, u64)> = vec![(0, 0, 0); pids.len()]; // (pid, seq, cpu at last change)
+            while done.load(Relaxed) < pids.len() as u64 {
+                std::thread::sleep(std::time::Duration::from_millis(1500));
+                for w in 0..pids.len() {
+                    let pid = pids[w].load(Relaxed);
+                    if pid == 0 {
+                        continue;
+                    }
+                    let seq = seqs[w].load(Relaxed);
+                    let Some(cpu) = cpu_ticks(pid) else { continue };
+                    if last[w].0 != pid || last[w].1 != seq {
+                        last[w] = (pid, seq, cpu);
+                    } else if cpu.saturating_sub(last[w].2) > CASE_CPU_LIMIT_S * 100 {
+                        killed[w].store(pid, Relaxed);
+                        let _ = Command::new("kill").args(["-9", &pid.to_string()]).status();
+                    }
+                }
+            }
+        });
         for w in 0..workers {
             let run = &run;
             let exe = exe.clone();
@@ -204,12 +239,14 @@ fn main() {
                         .stderr(Stdio::piped())
                         .spawn()
                         .expect("spawn child");
+                    pids[w as usize].store(ch.id() as u64, Relaxed);
                     let rd = BufReader::new(ch.stdout.take().unwrap());
                     let mut open: Option<(u64, u64, String)> = None;
                     let mut last_alloc: Option<String> = None;
                     let mut finished = false;
                     for line in rd.lines() {
                         let Ok(line) = line else { break };
+                        seqs[w as usize].fetch_add(1, Relaxed);
                         let (tag, rest) = line.split_at(1.min(line.len()));
                         let rest = rest.trim_start();
                         match tag {
@@ -252,8 +289,22 @@ fn main() {
                         }
                     }
                     let status = ch.wait().ok();
+                    pids[w as usize].store(0, Relaxed);
                     if finished {
                         break;
+                    }
+                    if killed[w as usize].swap(0, Relaxed) != 0 {
+                        if let Some((s, k, class)) = open.take() {
+                            let cls = class.split(':').next().unwrap_or("").to_string();
+                            st.violation(
+                                format!("did-not-terminate:{cls}"),
+                                J::obj(vec![("seed_index", J::i(s)), ("mutant_index", J::i(k)), ("mutation", J::s(class)), ("what", J::s(format!("the child spent more than {CASE_CPU_LIMIT_S} s of CPU time inside this case and was killed")))]),
+                            );
+                            rs = s;
+                            rm = k + 1;
+                            restarts += 1;
+                            continue;
+                        }
                     }
                     // the child died: attribute the death to the announced case
                     let mut err = String::new();
@@ -285,6 +336,7 @@ fn main() {
                     }
                 }
                 st.add("workers.restarts_after_child_death", restarts);
+                done.fetch_add(1, Relaxed);
                 run.merge(st);
             });
         }
@@ -294,7 +346,7 @@ fn main() {
         require.push((format!("mutants.{c}"), 20));
     }
     run.finish(Finish {
-        rule: "seed proofs as in C03 (12 field x hasher combinations, 3 extension degrees, single/multi segment, Lagrange kernel, with/without trace metadata); inputs: every single-bit flip and 8 byte values at every offset (quick: all for the first 160 bytes, one per offset beyond), every scalar/length field x {0,1,2,..,max-1,max,+-1,random}, blobs grown/shrunk/emptied with lengths fixed up (by bytes, zero bytes, digests, field elements, whole table rows), rows added to / removed from every opened table at once with and without num_unique_queries adjusted, out-of-domain frames re-encoded with other frame sizes, Lagrange frame injected/resized, FRI layer and query record surgery (also together with the layer's commitment), sampled pairs of such edits, single-query seeds with the FRI remainder shortened/extended + its commitment recomputed + the nonce scanned, Merkle node-vector edits, truncation at every offset, trailing garbage, valid prefix + random bytes, structurally valid proofs with inconsistent components built through the public fields (unique-query counts 0/1/2/254/255, nonces, gkr_proof variants, missing/extra/swapped query sets, empty OOD frame/commitments, dummy FRI proof, foreign context). Each input: Proof::from_bytes; if it parses, verify against the right public inputs under MinConjecturedSecurity(0), MinProvenSecurity(0), OptionSet([options]), MinConjecturedSecurity(128) and against perturbed public inputs. Monitors: panic hook, overflow checks, counting allocator (single request <= max(16 MiB, 64*len), peak <= 256*len + 64 MiB), child-process isolation. distinct = distinct (seed, mutant)".into(),
+        rule: "seed proofs as in C03 (12 field x hasher combinations, 3 extension degrees, single/multi segment, Lagrange kernel, with/without trace metadata); inputs: every single-bit flip and 8 byte values at every offset (quick: all for the first 160 bytes, one per offset beyond), every scalar/length field x {0,1,2,..,max-1,max,+-1,random}, blobs grown/shrunk/emptied with lengths fixed up (by bytes, zero bytes, digests, field elements, whole table rows), rows added to / removed from every opened table at once with and without num_unique_queries adjusted, out-of-domain frames re-encoded with other frame sizes, Lagrange frame injected/resized, FRI layer and query record surgery (also together with the layer's commitment), sampled pairs of such edits, single-query seeds with the FRI remainder shortened/extended + its commitment recomputed + the nonce scanned, Merkle node-vector edits, truncation at every offset, trailing garbage, valid prefix + random bytes, structurally valid proofs with inconsistent components built through the public fields (unique-query counts 0/1/2/254/255, nonces, gkr_proof variants, missing/extra/swapped query sets, empty OOD frame/commitments, dummy FRI proof, foreign context). Each input: Proof::from_bytes; if it parses, verify against the right public inputs under MinConjecturedSecurity(0), MinProvenSecurity(0), OptionSet([options]), MinConjecturedSecurity(128) and against perturbed public inputs. Monitors: panic hook, overflow checks, termination watchdog on the child's CPU time (120 s per case), counting allocator (single request <= max(16 MiB, 64*len), peak <= 256*len + 64 MiB), child-process isolation. distinct = distinct (seed, mutant)".into(),
         assumptions: vec![
             "each worker is a child process that announces a case before running it; a death is attributed to the announced case and the worker is restarted after it".into(),
             "panic signatures: repo-relative file (or first repo frame + function for panics inside core/alloc) + message with digits normalised".into(),
